@@ -14,14 +14,14 @@ def main(tier):
         params = {'name_i': i, 'maxdist': 4} if tier == 'quick' else {'name_i': i}
         jobs.append(dict(path=H, fname='_c11_one', params=params, timeout=400 if tier == 'quick' else 1500, self_reach=True,
                          label=f'one item, database/taxon/genome text pool entry #{i}',
-                         bounds={'label': '10 texts (commas, quotes, newlines, CR LF, tabs, non-ASCII, empty, padded)', 'predicted': 'none / species / unreportable taxon / genus',
+                         bounds={'label': '10 texts (commas, quotes, newlines, CR LF, tabs, non-ASCII, empty, padded)', 'predicted': 'none / species / unreportable taxon with reportable ancestor / genus / unreportable taxon without any reportable ancestor',
                                  'next': 'none / species / genus', 'distance': 'float32 pool (0, 1, 0.1f, 1/3f, denormal, 1-ulp, 2.5e-7)' + (' first 4' if tier == 'quick' else ''),
                                  'source file': 'present / absent', 'failed strict result with warning and error': 'yes / no'}))
     if tier == 'quick':
         jobs.append(dict(path=H, fname='_c11_many', params={'name_i': 1, 'maxitems': 2}, timeout=400, self_reach=True, label='0..2 items, every presence pattern',
                          bounds={'items': '0..2', 'patterns': 'predicted x next x failed per item'}))
     else:
-        for p0 in range(4):
+        for p0 in range(5):
             jobs.append(dict(path=H, fname='_c11_many', params={'name_i': 1, 'maxitems': 3, 'p0': p0}, timeout=2400, self_reach=True, label=f'0..3 items, every presence pattern (item 0 predicted={p0})',
                              bounds={'items': '0..3', 'patterns': 'predicted x next x failed per item'}))
     jobs.sort(key=lambda j: -j['timeout'])
